@@ -81,6 +81,19 @@ def tasks(tier):
                    durs=[0, 1], strat_menu=[1, 9], strat_free=True, max_unknown=None,
                    sleeper="policy" if "Set" in e else "call")
         out.append({"family": "delay-same-object", "cfg": cfg, "entry": e, "bound": 1, "weight": 3})
+    # strategy answers that are ints (seconds), not floats
+    for tb, e in itertools.product(TABLES[:2], Q4):
+        cfg = dict(M=3, strat=tb, alphabet=["ok", "x:T", "r:T"], strat_menu=["int:1", "int:2", 1, "int:0"],
+                   strat_free=True, max_unknown=None, deadline=40, handler="call",
+                   handler_menu=["SLEEP", "DEFER"], handler_free=True)
+        out.append({"family": "delay-int-answers", "cfg": cfg, "entry": e, "bound": 0})
+    # async sleepers / hooks that return awaitables without being coroutine functions
+    for tb, aw, e in itertools.product(TABLES[:2], ["object", None], ["AsyncRetry.call", "AsyncRetry.execute",
+                                                                     "AsyncPolicy.call", "AsyncRetryPolicy.execute"]):
+        cfg = dict(M=3, strat=tb, alphabet=["ok", "x:T", "r:T"], strat_menu=[1, 9], strat_free=True,
+                   max_unknown=None, deadline=6, sleeper="call", sleeper_async=True,
+                   before_sleep="call", bs_async=True, awaitable=aw, suspend=True)
+        out.append({"family": "delay-async-awaitables", "cfg": cfg, "entry": e, "bound": 0})
     # strategies that are falsy callable objects (an empty "delay schedule" that is callable)
     for tb, e in itertools.product([{"default": "ctx", "per": {"T": "ctx", "R": "ctx"}},
                                     {"default": None, "per": {"T": "ctx", "U": "ctx"}}], Q4):
@@ -206,6 +219,11 @@ def monitor(w, cfg):
             for sl in a.sleeps:
                 if sl[2] != delay:
                     v.append(("c05.delay-sleeper", f"sleeper received {sl[2]}, delay is {delay}"))
+            if (not a.sleeps and not a.last and cfg["sleeper"] and not cfg["faults"]
+                    and not any(h[4] != "SLEEP" for h in a.handlers)):
+                # the retry was granted and the next attempt made: the sleeper was owed the delay
+                v.append(("c05.delay-sleeper", f"attempt {a.i}: the next attempt was made but the "
+                                               f"sleeper never ran (delay {delay})"))
             if any(h[4] == "DEFER" for h in a.handlers) and call.end is not None:
                 end = call.end
                 nxt = end[10] if end[1] == "outcome" else (end[4][5] if end[4] else "missing")
